@@ -21,10 +21,12 @@ class Cms(Asset):
     '''
 
     def __init__(self, maintainer, name = None, value = 0):
-        super().__init__(name, value)
-
         self.maintainer = maintainer
         self._sensors = []
+        # Fields are set before the base constructor because it will
+        # initialize the Asset right away if the simulation is already
+        # running.
+        super().__init__(name, value)
 
     def add_sensor(self, sensor):
         '''Register a sensor for the CMS.
